@@ -143,13 +143,12 @@ parseChunks:
 				return nil, fmt.Errorf("invalid ICC profile chunk length")
 			}
 
-			chunkData := make([]byte, ch.Length-offset)
-			bytesRead, err := r.Read(chunkData)
+			chunkData, err := binary.ReadBytes(r, ch.Length-offset)
+			if err == io.ErrUnexpectedEOF {
+				return nil, fmt.Errorf("unexpected EOF reading ICC profile chunk")
+			}
 			if err != nil {
 				return nil, err
-			}
-			if bytesRead != len(chunkData) {
-				return nil, fmt.Errorf("unexpected EOF reading ICC profile chunk")
 			}
 
 			// Skip chunk CRC
